@@ -22,6 +22,7 @@ ASSUMPTIONS = [
 
 K_BUDGET = 40  # set from the pinned tree: see DESIGN.md (max observed W/(n+64)^2 is < 10)
 EXP_LIMIT = 2.3
+STALL_CPU_S = 20.0
 FAM_SIZES = (50, 100, 200)
 
 
@@ -127,7 +128,7 @@ def run_items(items, job):
                 continue
             key, doc = PL.item_doc(it)
             n = len(doc)
-            kind, val, steps = pm.parse(tok, doc, cpu_s=120, counter=ctr, budget=budget(n))
+            kind, val, steps = pm.parse(tok, doc, cpu_s=STALL_CPU_S, counter=ctr, budget=budget(n))
             R.evals += 1
             R.count("parse_calls")
             if steps > 0:
@@ -147,7 +148,10 @@ def run_items(items, job):
             elif kind == "budget":
                 R.viol.append([key, "loop:" + val, {"doc": doc, "steps": steps, "budget": budget(n), "stacks": [s[-6:] for s in ctr.snaps]}])
             else:
-                R.inconclusive.append(f"cpu watchdog on {key}")
+                # CPU consumed without function entries (work inside a C extension such as the regular
+                # expression engine is invisible to the step counter): 20 s of *process* CPU time on one
+                # document is four orders of magnitude above the slowest pinned-tree parse
+                R.viol.append([key, "stall:no-python-progress", {"doc": doc, "steps": steps, "cpu_s": STALL_CPU_S}])
     finally:
         ctr.stop()
     # max over shards is not additive: report separately
